@@ -15,7 +15,8 @@ THEOREMS = [
     'Dlis.C06.ascii_domain', 'Dlis.C06.ident_roundtrip', 'Dlis.C06.ident_domain', 'Dlis.C06.dtime_roundtrip',
     'Dlis.C06.dtime_millisecond', 'Dlis.C06.obname_roundtrip', 'Dlis.C06.obname_domain',
     'Dlis.C06.objref_roundtrip', 'Dlis.C06.status_roundtrip', 'Dlis.C06.status_domain',
-    'Dlis.C06.bits_roundtrip',
+    'Dlis.C06.bits_roundtrip', 'Dlis.C06.fsingl_exact_when_representable', 'Dlis.C06.fsingl_rounds_to_nearest',
+    'Dlis.C06.fsingl_refuses_out_of_range', 'Dlis.C06.fsingl_special',
     'Dlis.Obligations.uvari_offsets', 'Dlis.Obligations.repcodes_eq', 'Dlis.Obligations.structDict_eq',
 ]
 
@@ -303,12 +304,75 @@ def run(tier):
             if not rep.startswith('ok') or not rep.endswith(want_tail):
                 chk.fail('obname:stale-after-change', {'steps': steps, 'encoder': enc, 'current_identity': [o, c, n]},
                          f'encoded {out.hex()[:80]} decodes as {rep[:120]!r}; the object is now ({o}, {c}, {n!r})')
+    # FSINGL of a Python float (a double): round to nearest, ties to even; beyond the range OverflowError.  The model
+    # is f64ToF32 (theorems fsingl_*); the oracle is numpy's own double -> single conversion and the exact threshold
+    import struct as _struct
+    thorough = tier == 'thorough'
+
+    def dbl(bits):
+        return _struct.unpack('>d', _struct.pack('>Q', bits))[0]
+
+    def sgl(bits):
+        return float(np.array([bits], dtype=np.uint32).view(np.float32)[0])
+
+    pats = [0, 1 << 63, 1, 0x000fffffffffffff, 0x0010000000000000, 0x3690000000000000, 0x3690000000000001, 0x368fffffffffffff,
+            0x36a0000000000000, 0x380fffffffffffff, 0x3810000000000000, 0x380fffffe0000000, 0x380ffffff0000000,
+            0x47efffffe0000000, 0x47efffffefffffff, 0x47effffff0000000, 0x47effffff0000001, 0x47f0000000000000,
+            0x7fefffffffffffff, 0x7ff0000000000000, 0xfff0000000000000, 0x7ff8000000000000, 0xfff8000000000001,
+            0x7ff4000000000001, 0x7ff0000020000000, 0x7ff0000000000001, 0x3fb999999999999a]
+    for _ in range(4000 if thorough else 600):
+        k = R.random()
+        if k < 0.25:
+            pats.append(R.getrandbits(64))
+        elif k < 0.5:        # inside the range of normal singles
+            pats.append((R.getrandbits(1) << 63) | (R.randrange(897, 1151) << 52) | R.getrandbits(52))
+        elif k < 0.65:       # where singles are subnormal or vanish
+            pats.append((R.getrandbits(1) << 63) | (R.randrange(860, 900) << 52) | R.getrandbits(52))
+        else:                # at and next to the middle between two neighbouring singles (ties), and at singles
+            sb = R.choice([R.getrandbits(31), R.randrange(0, 0x01000000), R.randrange(0x7f000000, 0x7f7fffff)])
+            if sb >= 0x7f7fffff:
+                sb = 0x7f7ffffe
+            lo_, hi_ = sgl(sb), sgl(sb + 1)
+            mid = (lo_ + hi_) / 2          # exact in double precision
+            mb = _struct.unpack('>Q', _struct.pack('>d', mid))[0]
+            pats.append((mb + R.choice([0, 0, 1, -1, 2])) | (R.getrandbits(1) << 63))
+            if R.random() < 0.3:
+                pats.append(_struct.unpack('>Q', _struct.pack('>d', lo_))[0])
+    fs_reqs, fs_meta = [], []
+    THR = (2 ** 25 - 1) * 2 ** 103
+    for bts in pats:
+        bts &= (1 << 64) - 1
+        x = dbl(bts)
+        st, out = call(sw.write_struct, RC.FSINGL, x)
+        case = {'code': 'FSINGL', 'value': repr(x), 'double_bits': hex(bts)}
+        chk.case('fsingl-of-double', nontrivial_key=('fsd', bts), sample={'bits': hex(bts), 'impl': out.hex() if st == 'ok' else out})
+        chk.count(f'fsingl-of-double:{st if st == "ok" else out}')
+        fs_reqs.append(f'val 2 d:{bts}')
+        fs_meta.append((case, st, out))
+        finite = x == x and abs(x) != float('inf')
+        if finite and abs(x) >= THR:
+            if st == 'ok':
+                chk.fail('fsingl:accepts-out-of-range', case, f'{x!r} is beyond the single range; written as {out.hex()}')
+        elif st != 'ok':
+            chk.fail('fsingl:rejects-valid', case, f'raises {out}')
+        elif x == x:
+            want = int(np.array([x], dtype=np.float64).astype(np.float32).view(np.uint32)[0])
+            if int.from_bytes(out, 'big') != want or len(out) != 4:
+                chk.fail('fsingl:not-nearest', case, f'written {out.hex()}, the nearest single is {want:08x}')
+        elif len(out) != 4 or (int.from_bytes(out, 'big') >> 23) & 0xff != 0xff or int.from_bytes(out, 'big') & 0x7fffff == 0:
+            chk.fail('fsingl:nan-lost', case, f'a NaN is written as {out.hex()}')
+    if bres.ok:
+        for (case, st, out), rep in zip(fs_meta, model.ask(fs_reqs)):
+            irep = ('ok ' + hexs(out)) if st == 'ok' else f'err {out}'
+            if rep != irep:
+                chk.disagree('fsingl-of-double', case, irep, rep)
     # numbers of other types than int / float (numpy scalars, Fraction, Decimal) given to the numeric attributes: never
     # cut to fit an integer code; what is accepted decodes to the same number
     from harness.filegen import ATTRS
     convert.run_numberlike(chk, model, bres, rng('C06', 'number-like'), 800 if tier == 'quick' else 8000, ATTRS)
     chk.exhaustive = False
     return finish(chk, bres, THEOREMS,
-                  partial_note='float64->float32 rounding of a Python float given to FSINGL and str() of non-str '
-                               'values given to IDENT/ASCII are CPython behaviour outside the model; the '
-                               'correspondence feeds exactly representable values / str values only.')
+                  partial_note='str() of non-str values given to IDENT/ASCII is CPython behaviour outside the model (the '
+                               'correspondence feeds str values only); the double -> single rounding of FSINGL is '
+                               'modelled on bit patterns (f64ToF32) with the NaN payload rule of the x86-64 / AArch64 '
+                               'conversion instructions taken as given.')
